@@ -557,6 +557,8 @@ def c06(tier):
     ctp = rxc.gen_patterns(rnd, 48 if q else 600, max_positions=20) + rxc.rr.hand_corpus()[:24]
     merge(ck, common.pmap(rxc.judge_ct, [('C06', c, 'asan0', common.seed() + i) for i, c in enumerate(chunks(ctp, 12))]))
     merge(ck, [fuzz_targets(tier)])
+    if not q:
+        merge(ck, common.pmap(sfc.valgrind_worker, [{'seed': common.seed() * 29 + i, 'grammars': [g.to_json() for g in c], 'n_inputs': 60} for i, c in enumerate(chunks(gs[:48], 3))]))
     ck.cov['rule'] = ('conflict-free grammars (core corpus, string/regex/typed terms, fixed lexer term sets, error rules, scripted custom lexers) built with clang ASan+UBSan (-fno-sanitize-recover, '
                       '_GLIBCXX_ASSERTIONS; thorough adds g++ ASan+bounds, libFuzzer targets) and run on hostile inputs: every single byte value, whitespace-only, empty, every prefix of valid sentences, '
                       'byte flips to NUL/0x80/0xff, trailing/leading whitespace, random bytes, inputs of 10^5..10^6 tokens and nesting depth 10^5, through string_buffer, an exact-size heap '
